@@ -35,6 +35,7 @@ struct P {
     p_busy: u64,
     p_select: u64,
     p_join: u64,
+    p_self_tell: u64,
     p_long_busy: u64,
     p_detached: u64,
     p_start_delay: u64,
@@ -73,6 +74,7 @@ fn base() -> P {
         p_busy: 0,
         p_select: 2,
         p_join: 3,
+        p_self_tell: 2,
         p_long_busy: 0,
         p_detached: 2,
         p_start_delay: 40,
@@ -114,6 +116,7 @@ fn profile(name: &str) -> P {
             p.caps = vec![Some(1), Some(1), Some(2), Some(3), Some(5), Some(8), Some(32), None];
             p.w_op = [60, 10, 0, 0, 0, 5, 2, 3, 5, 2, 2, 2, 1, 6];
             p.p_tell_only = 100;
+            p.p_self_tell = 8;
             p.first_gated = 85;
             p.p_gate = 15;
             p.p_peer = 0;
@@ -318,6 +321,17 @@ impl G {
                     body,
                 });
             }
+        }
+        if self.r.chance(self.p.p_self_tell) && self.in_peers[a] {
+            // a handler sends to its own actor with a bounded wait (an unbounded self-send into a full mailbox would deadlock the workload)
+            let uid = self.uid();
+            let t = self.timeout();
+            s.push(Step::Peer {
+                target: a,
+                kind: SendKind::TellTo(t),
+                mty: MTy::U,
+                body: Body::plain(uid),
+            });
         }
         if self.r.chance(self.p.p_join) {
             if let (Some(t1), Some(t2)) = (self.downstream(a), self.downstream(a)) {
@@ -670,9 +684,14 @@ fn finish(g: &mut G, profile_name: &str, seed: u64, mut actors: Vec<ActorSpec>, 
                         }
                     }
                 }
-                5 if !strong.is_empty() => Op::Stop {
-                    slot: *g.r.pick(&strong),
-                },
+                5 if !strong.is_empty() => {
+                    let slot = *g.r.pick(&strong);
+                    if g.r.chance(30) {
+                        Op::StopTo { slot, ms: g.timeout() }
+                    } else {
+                        Op::Stop { slot }
+                    }
+                }
                 6 if !strong.is_empty() => Op::Kill {
                     slot: *g.r.pick(&strong),
                 },
